@@ -692,8 +692,13 @@ class JobNew(FSContract):
 
 class OpenJobBySP(FSContract):
     target = f"{PRJ}.Project.open_job"
-    properties = ("C01", "C02", "C03")
+    properties = ("C01", "C02", "C03", "C12")
     inline = GETTERS + (f"{JOB}.Job.__init__", f"{JOB}.Job._initialize_lazy_properties")
+    # not called by the current code (callee view of ContainsJobId, contracts/project.py): a handle opened from a state point knows that state
+    # point whether or not a directory of that id exists already -- a directory is no proof that the job is initialised (C12: two processes
+    # initialising the same job; the second one finds the directory before the first has written the state point file)
+    callees = {f"{PRJ}.Project._contains_job_id": lambda interp, b: SBool(interp.ctx.fs.dirs[JD.mk(b["self"].p, b["job_id"].e)]) if isinstance(b["job_id"], SId)
+               else (_ for _ in ()).throw(Unsupported("_contains_job_id argument"))}
     faults = False
 
     def cases(self):
